@@ -199,6 +199,15 @@ void ScriptStack::Archive(Archiver& arc)
     for (uint32_t i = 0; i < stackSize; i++) {
         localStack[i].ArchiveInternal(arc);
     }
+
+    // the position of the top: a thread saved in the middle of an expression
+    // (e.g. waiting for the result of a waitthread) continues with its operands in place
+    uint32_t topIndex = (uint32_t)GetIndex();
+    arc.ArchiveUInt32(topIndex);
+    if (arc.Loading())
+    {
+        pTop = localStack + (topIndex <= stackSize ? topIndex : 0);
+    }
 }
 
 ScriptVM::ScriptVM()
